@@ -105,7 +105,8 @@ CLAIMS = {
         design_ref="5 (C11)"),
     "C12": dict(
         technique="Coq proof of the hiding statements that hold (LIST both forms, NAMES contribution, WHO by channel name) and a machine-checked refutation for NAMES with an explicit name + two-world differential check on the real server",
-        text="New: NAMES without argument gives an outsider the same lines, up to the order of channels, as in the world without the secret channel (C12_names_all_hides_partial); the entry of an invisible user in every WHO answer of a client sharing no channel is empty, a wildcard WHO is answered - up to line order - as in the world where that user is not connected, and WHO <nick> as for an absent nick, and WHOIS in all its forms - nicks, comma lists, wildcards - up to the order of the answered users (C12_whois_hides_invisible_partial, C12_who_entry_of_invisible_is_empty_partial, C12_who_wildcard_hides_invisible_partial, C12_who_nick_hides_invisible_partial). Theorems (props/C12.v): LIST (explicit and bare) answers an outsider exactly as in the world without the secret channel; NAMES contributes no line for a secret channel to a non-member; "
+        text="A MODE <own nick> command whose mode strings do not contain the letter i leaves the invisible flag as it is, whatever else it drops or is refused (C12_mode_without_i_keeps_invisible_partial). "
+             "New: NAMES without argument gives an outsider the same lines, up to the order of channels, as in the world without the secret channel (C12_names_all_hides_partial); the entry of an invisible user in every WHO answer of a client sharing no channel is empty, a wildcard WHO is answered - up to line order - as in the world where that user is not connected, and WHO <nick> as for an absent nick, and WHOIS in all its forms - nicks, comma lists, wildcards - up to the order of the answered users (C12_whois_hides_invisible_partial, C12_who_entry_of_invisible_is_empty_partial, C12_who_wildcard_hides_invisible_partial, C12_who_nick_hides_invisible_partial). Theorems (props/C12.v): LIST (explicit and bare) answers an outsider exactly as in the world without the secret channel; NAMES contributes no line for a secret channel to a non-member; "
              "WHO with any mask (wildcards, nicknames, channel names incl. the secret one) answers an outsider exactly as in the world without the secret channel; WHOIS never lists a secret channel whoever asks; an invisible user sharing no channel with the asker gets an empty WHOIS and is not "
              "listed by NAMES to outsiders. C12_names_explicit_refuted proves that NAMES #secret is silent while NAMES #absent answers 366, for every state: the recorded finding. "
              "All remaining forms (NAMES comma lists, WHOIS masks) are decided per run by executing both worlds on the real server and comparing the outsider's view (L2).",
